@@ -66,7 +66,7 @@ type Driver struct {
 	Shrink   func(input string) []string // optional: smaller candidate inputs
 	Teardown func()
 	Parallel int // optional: run Exec on this many inputs concurrently (Exec must then be goroutine-safe)
-	// CaseTimeoutSec: a case whose Exec has not returned after this many seconds (default 120) is a hang of
+	// CaseTimeoutSec: a case whose Exec has not returned after this many seconds (default 600; in-process drivers of quick cases set 120) is a hang of
 	// the implementation: the process reports the input on stderr and exits with code 3
 	CaseTimeoutSec int
 }
@@ -191,7 +191,7 @@ func main() {
 	}
 	caseTimeout := time.Duration(d.CaseTimeoutSec) * time.Second
 	if caseTimeout == 0 {
-		caseTimeout = 120 * time.Second
+		caseTimeout = 600 * time.Second
 	}
 	// execWatched runs one case; a case that never returns is reported and ends the process (exit 3)
 	execWatched := func(in string) Result {
